@@ -60,6 +60,8 @@ type realOut struct {
 	Panic   string      `json:"panic,omitempty"`
 	Ast     interface{} `json:"ast,omitempty"`
 	BodyMod bool        `json:"bodyModified,omitempty"`
+	// Description.Loc of every described node, in document order (the shared AST JSON carries description VALUES only)
+	DescLocs [][]int `json:"descLocs"`
 }
 
 func realParse(src string) (out realOut) {
@@ -88,6 +90,76 @@ func realParse(src string) (out realOut) {
 	}
 	out.OK = true
 	out.Ast = patchNilTypes(astjson.Document(doc))
+	out.DescLocs = descLocs(doc)
+	return out
+}
+
+// descLocs lists the Loc of every Description child in document order: the definition's own, then (fields: own, then
+// their arguments') / enum values' / input fields' / directive arguments'. A nil Loc is rendered [-1,-1].
+func descLocs(doc *ast.Document) [][]int {
+	out := [][]int{}
+	add := func(d *ast.StringValue) {
+		if d == nil {
+			return
+		}
+		if d.Loc == nil {
+			out = append(out, []int{-1, -1})
+			return
+		}
+		out = append(out, []int{d.Loc.Start, d.Loc.End})
+	}
+	ivds := func(ds []*ast.InputValueDefinition) {
+		for _, d := range ds {
+			if d != nil {
+				add(d.Description)
+			}
+		}
+	}
+	fields := func(fs []*ast.FieldDefinition) {
+		for _, f := range fs {
+			if f != nil {
+				add(f.Description)
+				ivds(f.Arguments)
+			}
+		}
+	}
+	object := func(x *ast.ObjectDefinition) {
+		if x != nil {
+			add(x.Description)
+			fields(x.Fields)
+		}
+	}
+	if doc == nil {
+		return out
+	}
+	for _, d := range doc.Definitions {
+		switch x := d.(type) {
+		case *ast.ScalarDefinition:
+			add(x.Description)
+		case *ast.ObjectDefinition:
+			object(x)
+		case *ast.InterfaceDefinition:
+			add(x.Description)
+			fields(x.Fields)
+		case *ast.UnionDefinition:
+			add(x.Description)
+		case *ast.EnumDefinition:
+			add(x.Description)
+			for _, v := range x.Values {
+				if v != nil {
+					add(v.Description)
+				}
+			}
+		case *ast.InputObjectDefinition:
+			add(x.Description)
+			ivds(x.Fields)
+		case *ast.TypeExtensionDefinition:
+			object(x.Definition)
+		case *ast.DirectiveDefinition:
+			add(x.Description)
+			ivds(x.Arguments)
+		}
+	}
 	return out
 }
 
@@ -219,7 +291,7 @@ func main() {
 		return
 	}
 	defer drv.Close()
-	run.Res.Rule = "source texts: (a) all token sequences over the 37-symbol alphabet (14 punctuators, 18 keywords, name, int, float, string, block string) up to length 3 quick / 4 thorough, single-space separated; (b) all sequences over the 12-symbol alphabet [ ] ! { } ( ) : $ = a 1 up to length 6 / 8 inside 5 contexts (raw, variable type, argument value, field type, variable default), enumerated as the viable-prefix tree; (b') all sequences over the 37-symbol alphabet plus the strings \"on\" and \"implements\" up to length 2 / 3 inside 20 production contexts (variable type/default, argument value, selection, spread, field tail, operation head, fragment head, object head/field/argument definition, union members, enum/input/schema bodies, directive head/locations, extend, after a description); (c) gen.DocGen documents (executable and type-system, Exotic); (d) 1-3 token-level mutations (insert/delete/swap/replace) of (c); (e) a malformed lexeme of each lexical error class (bad character, control character, unterminated string / block string, bad escape, bad unicode escape, bad number, `..`, line break in string) placed right after every token sequence up to length 2 / 3 over the 39-symbol alphabet and after every sequence up to length 1 / 2 inside the 20 production contexts, tokens separated by space / LF / CR / CRLF, with and without trailing tokens, and after a random cut of every mutated document: the offset parser.Parse reports (its own rejection at the current token, or the lexical error of the next lexeme) must be the one the model's lazy-lexing layer selects. Compared: accept/reject real vs M and vs S, AST incl. every location real vs M, error offset real vs M, source body unchanged; on every rejected case outside D-03b (typeRefMalformed): the model's grammar must certify a completion of the tokens before the blamed one (recogniser accepts prefix ++ completion) and parser.Parse must accept the text before the blamed token followed by that completion (ASCII texts). non-trivial = the token list has >= 2 tokens before EOF and the real parser got past the first token (accepted, or error offset > start of the first token); distinct by source text"
+	run.Res.Rule = "source texts: (a) all token sequences over the 37-symbol alphabet (14 punctuators, 18 keywords, name, int, float, string, block string) up to length 3 quick / 4 thorough, single-space separated; (b) all sequences over the 12-symbol alphabet [ ] ! { } ( ) : $ = a 1 up to length 6 / 8 inside 5 contexts (raw, variable type, argument value, field type, variable default), enumerated as the viable-prefix tree; (b') all sequences over the 37-symbol alphabet plus the strings \"on\" and \"implements\" up to length 2 / 3 inside 20 production contexts (variable type/default, argument value, selection, spread, field tail, operation head, fragment head, object head/field/argument definition, union members, enum/input/schema bodies, directive head/locations, extend, after a description); (c) gen.DocGen documents (executable and type-system, Exotic); (d) 1-3 token-level mutations (insert/delete/swap/replace) of (c); (f) described type-system definitions: 13 templates (every definition kind that takes a description, `extend` included) x quoted / block / empty descriptions x glue x inner descriptions (fields, arguments, enum values, input fields, directive arguments) x 12 preceding and 4 following contexts (document start, after plain / described / executable definitions, comment, BOM), pairs of described definitions, and 1-2 token-level mutations of each; (e) a malformed lexeme of each lexical error class (bad character, control character, unterminated string / block string, bad escape, bad unicode escape, bad number, `..`, line break in string) placed right after every token sequence up to length 2 / 3 over the 39-symbol alphabet and after every sequence up to length 1 / 2 inside the 20 production contexts, tokens separated by space / LF / CR / CRLF, with and without trailing tokens, and after a random cut of every mutated document: the offset parser.Parse reports (its own rejection at the current token, or the lexical error of the next lexeme) must be the one the model's lazy-lexing layer selects. Compared: accept/reject real vs M and vs S, AST incl. every location real vs M (the Loc of every Description child too: collected from the Go AST in document order and compared with the extent of the token the described node starts with, GqlModel/DescLoc.lean), error offset real vs M, source body unchanged; on every rejected case outside D-03b (typeRefMalformed): the model's grammar must certify a completion of the tokens before the blamed one (recogniser accepts prefix ++ completion) and parser.Parse must accept the text before the blamed token followed by that completion (ASCII texts). non-trivial = the token list has >= 2 tokens before EOF and the real parser got past the first token (accepted, or error offset > start of the first token); distinct by source text"
 
 	lexErrors := 0
 	staleKF := 0
@@ -316,6 +388,13 @@ func main() {
 		req := map[string]interface{}{"tokens": toks, "goAst": nil}
 		if g.OK {
 			req["goAst"] = g.Ast
+			req["descLocs"] = g.DescLocs
+			if len(g.DescLocs) > 0 {
+				run.Tag("description-locs-compared")
+			}
+			if c.Stream == "described" {
+				run.Tag("described:accepted")
+			}
 		}
 		var m modelResp
 		if err := drv.Ask(req, &m); err != nil {
@@ -357,7 +436,11 @@ func main() {
 		}
 		if g.OK {
 			if m.M.AstEq == nil || !*m.M.AstEq {
-				run.Violation("AST (shape, values or a node location) of parser.Parse differs from the model's", replay(), false)
+				note := "AST (shape, values or a node location) of parser.Parse differs from the model's"
+				if i, j := strings.LastIndex(m.M.MAst, " descLocs["), strings.LastIndex(m.M.GAst, " descLocs["); i >= 0 && j >= 0 && m.M.MAst[:i] == m.M.GAst[:j] {
+					note = fmt.Sprintf("the Loc of a Description child differs (document order; want = extent of the token the described node starts with): parser.Parse%s, model%s", m.M.GAst[j:], m.M.MAst[i:])
+				}
+				run.Violation(note, replay(), false)
 				return
 			}
 		} else {
@@ -601,6 +684,33 @@ func main() {
 	}
 	run.Res.Extra["malformed_lexeme_after"] = map[string]interface{}{"classes": len(badLexemes), "layouts": layouts, "max_len": maxE, "contexts": len(fullContexts)}
 
+	// ---- (f) described type-system definitions: every definition kind that takes a description (and `extend`), quoted /
+	// block / empty descriptions, glued to or separated from the keyword, first in the document / after another
+	// definition / after a described definition / after an operation / after a comment, inner descriptions on fields,
+	// arguments, enum values, input fields and directive arguments; then pairs of described definitions and
+	// token-level mutations of all of these
+	describedDocs := describedStream(run.Thorough())
+	for i, src := range describedDocs {
+		if run.TooManyViolations() {
+			break
+		}
+		one(caseT{Src: src, Stream: "described"})
+		_, raw, _, ok := lexAll(src)
+		if !ok || len(raw) < 2 {
+			continue
+		}
+		r := hx.Fork(run.Seed, 7000000+i)
+		texts := []string{}
+		for _, t := range raw[:len(raw)-1] {
+			texts = append(texts, renderTok(t))
+		}
+		for k := r.Range(1, 2); k > 0; k-- {
+			texts = mutate(r, texts, full)
+		}
+		one(caseT{Src: strings.Join(texts, []string{" ", "\n", "  "}[r.Intn(3)]), Stream: "described-mutation"})
+	}
+	run.Res.Extra["described_definitions"] = len(describedDocs)
+
 	// ---- (c) generated documents, (d) token-level mutations
 	n := run.N(2500, 400000)
 	for i := 0; i < n && !run.TooManyViolations(); i++ {
@@ -632,6 +742,64 @@ func main() {
 		run.Res.Assumptions = append(run.Res.Assumptions, fmt.Sprintf("known finding typeRefMalformed looks repaired in this tree: %d inputs the bug-faithful model accepts are rejected by parser.Parse and by the grammar (stale known: line)", staleKF))
 	}
 	run.Finish()
+}
+
+// describedStream: see stream (f)
+func describedStream(thorough bool) []string {
+	descs := []string{"\"the doc\"", "\"\"\"block\n  doc\"\"\"", "\"\"", "\"\"\"\"\"\""}
+	inner := []string{"", "\"inner\" ", "\"\"\"inner block\"\"\"\n"}
+	// %D top-level description slot, %I inner description slots
+	templates := []string{
+		"%Dscalar Date",
+		"%Dscalar Date @a",
+		"%Dtype T { %Ia: Int }",
+		"%Dtype T implements I & J @a { %Ia(%Ix: Int = 1, %Iy: [T!]): Int %Ib: T }",
+		"%Dinterface I { %Ia(%Ix: Int): Int }",
+		"%Dunion U = A | B",
+		"%Dunion U @a = A",
+		"%Denum E { %IRED %IGREEN @a }",
+		"%Dinput In { %Ia: Int = 1 %Ib: [In] }",
+		"%Ddirective @d(%Ix: Int, %Iy: T) on FIELD | QUERY",
+		"%Ddirective @d on FIELD",
+		"extend %Dtype T { %Ia: Int }",
+		"extend %Dtype T @a { %Ia(%Ix: Int): Int }",
+	}
+	befores := []string{"", "scalar Before ", "\"first\" scalar Before\n", "{ a } ", "# comment\n", "type X { a: Int }\n", "enum E0 { A }\n\n", "schema { query: Q } ",
+		"directive @b on FIELD ", "union V = A ", "\ufeff", "  \n\t"}
+	afters := []string{"", " scalar After", "\n\"last\" scalar After", " { a }"}
+	glue := []string{" ", "\n", ""}
+	out := []string{}
+	fill := func(tpl, d, in string) string {
+		return strings.ReplaceAll(strings.ReplaceAll(tpl, "%D", d), "%I", in)
+	}
+	for _, tpl := range templates {
+		for _, d := range descs {
+			for _, gl := range glue {
+				for ii, in := range inner {
+					for bi, b := range befores {
+						for ai, a := range afters {
+							if !thorough && (ii+bi+ai)%3 != 0 && !(ii == 0 && ai == 0) {
+								continue
+							}
+							out = append(out, b+fill(tpl, d+gl, in)+a)
+						}
+					}
+				}
+			}
+		}
+		// no top-level description, inner ones only
+		for _, in := range inner[1:] {
+			out = append(out, fill(tpl, "", in))
+		}
+	}
+	// pairs of described definitions
+	for i, t1 := range templates {
+		for j, t2 := range templates {
+			d1, d2 := descs[(i+j)%len(descs)], descs[(i+2*j+1)%len(descs)]
+			out = append(out, fill(t1, d1+" ", inner[(i+j)%3])+"\n"+fill(t2, d2+"\n", inner[(i+2*j)%3]))
+		}
+	}
+	return out
 }
 
 func contexts2() []string {
